@@ -20,6 +20,7 @@ pub struct InFlightEngine {
     conns: Vec<SrtlaConnection>,
     tracker: SequenceTracker,
     use_tracker: bool,
+    nak_mode: bool,
     base: u32,
     scale: u32,
     now: u64,
@@ -50,6 +51,7 @@ impl InFlightEngine {
             conns: Vec::new(),
             tracker: SequenceTracker::new(),
             use_tracker: false,
+            nak_mode: false,
             base: 0,
             scale: 1,
             now: T0,
@@ -70,6 +72,10 @@ impl InFlightEngine {
     }
 
     fn real(&self, s: i64) -> u32 {
+        if self.nak_mode {
+            // ring of 2 slots in the model <-> 16384 in the code: collide iff same parity
+            return self.base + (s as u32 % 2) + (s as u32 / 2) * 16384;
+        }
         self.base + self.scale * (s as u32)
     }
 
@@ -107,7 +113,13 @@ impl Engine for InFlightEngine {
         self.classic = case_key & 1 == 1;
         self.conns = (0..n).map(|i| live_conn(i, self.now)).collect();
         self.tracker = SequenceTracker::new();
-        if cfg.get("real").and_then(Value::as_bool).unwrap_or(false) {
+        self.nak_mode = false;
+        if cfg.get("nak").and_then(Value::as_bool).unwrap_or(false) {
+            self.nak_mode = true;
+            self.use_tracker = true;
+            self.scale = 1;
+            self.base = 16384 * (mix(case_key) % 1000) as u32;
+        } else if cfg.get("real").and_then(Value::as_bool).unwrap_or(false) {
             // recorded runs: real numbers, tracker populated like the shell does
             self.scale = 1;
             self.base = 0;
@@ -128,10 +140,28 @@ impl Engine for InFlightEngine {
 
     fn apply(&mut self, ev: &Value) -> Value {
         self.nstep += 1;
-        self.now += 1 + mix(self.key ^ self.nstep) % 7;
+        if self.nak_mode {
+            // model clock: MaxAge = 2 units <-> 5000 ms
+            self.now = T0 + ev.get("t").and_then(Value::as_u64).unwrap_or(0) * 2500;
+        } else {
+            self.now += 1 + mix(self.key ^ self.nstep) % 7;
+        }
         srtla_core::verif::set_clock(Some(self.now));
         match gets(ev, "ev") {
-            "Init" => {}
+            "Init" | "Advance" => {}
+            "RouteSend" | "ProbeSend" => {
+                let l = geti(ev, "l") as usize - 1;
+                let seq = self.real(geti(ev, "s"));
+                let pkt = srt_data(seq, 32, false, 0xcd);
+                let now = self.now;
+                let conn_id = self.conns[l].conn_id;
+                self.conns[l].queue_data_packet(&pkt, Some(seq), now);
+                if gets(ev, "ev") == "RouteSend" {
+                    self.tracker.insert(seq, conn_id, now);
+                }
+                let batch = self.conns[l].take_batch(now);
+                assert_eq!(batch.len(), 1);
+            }
             "Send" => {
                 let l = geti(ev, "l") as usize - 1;
                 let seq = self.real(geti(ev, "s"));
@@ -198,12 +228,23 @@ impl Engine for InFlightEngine {
                     None => self.real(geti(ev, "s")),
                 };
                 let now = self.now;
+                let before: Vec<(i32, i32, i32)> = self.conns.iter()
+                    .map(|c| (c.congestion.nak_count, c.window, c.in_flight_packets)).collect();
                 let ch = attribute_nak(&mut self.conns, &self.tracker, seq, now);
                 if ch.is_some() {
                     self.c_nak_charged += 1;
                 }
                 let mut o = self.obs();
                 o["ch"] = json!(ch.map(|i| i as i64 + 1).unwrap_or(0));
+                // the charge is exactly one loss count, one window decrement (floored), one in-flight slot,
+                // on the charged link only
+                for (i, c) in self.conns.iter().enumerate() {
+                    let (n0, w0, f0) = before[i];
+                    let exp = if Some(i) == ch { (n0 + 1, (w0 - 100).max(1000), f0 - 1) } else { (n0, w0, f0) };
+                    if (c.congestion.nak_count, c.window, c.in_flight_packets) != exp {
+                        o["inconsistent"] = json!(true);
+                    }
+                }
                 return o;
             }
             "Reset" => {
